@@ -19,7 +19,7 @@ func init() {
 	for _, k := range gen.Kinds {
 		req = append(req, "kind:"+k.String())
 	}
-	req = append(req, "dir_records", "bare_values")
+	req = append(req, "dir_records", "bare_values", "held_encodings_rechecked")
 	register(&mon.Spec{
 		ID:    "C01",
 		Level: "exploration",
@@ -63,6 +63,29 @@ func firstDiff(a, b []byte) int {
 }
 
 func nontrivialMsg(ref []byte) bool { return len(ref) > 3 }
+
+// held keeps earlier Marshal outputs alive while later messages are marshalled: the
+// bytes handed out for one message must stay that message's encoding.
+type heldEnc struct {
+	got, ref []byte
+	desc     string
+}
+
+var c01held []heldEnc
+
+func holdC01(w *mon.W, got, ref []byte, desc string) {
+	c01held = append(c01held, heldEnc{got, ref, desc})
+	if len(c01held) < 6 {
+		return
+	}
+	for _, h := range c01held {
+		w.Count("held_encodings_rechecked", 1)
+		if !bytes.Equal(h.got, h.ref) {
+			w.Violate("mismatch", "C01:marshal-output-overwritten", fmt.Sprintf("the bytes Marshal returned for %s were overwritten by later Marshal calls: now %s, were %s", h.desc, hexHead(h.got), hexHead(h.ref)), nil)
+		}
+	}
+	c01held = c01held[:0]
+}
 
 func runC01(w *mon.W) {
 	codec := p9p.NewCodec()
@@ -125,6 +148,9 @@ func checkFcallC01(w *mon.W, codec p9p.Codec, fc *p9p.Fcall) {
 	if err != nil {
 		w.Violate("mismatch", "C01:marshal-error:"+kind, fmt.Sprintf("Marshal failed for a representable message: %v; %s", err, desc()), nil)
 		return
+	}
+	if bytes.Equal(got, ref) && len(got) < 4096 {
+		holdC01(w, got, ref, refcodec.Describe(fc))
 	}
 	if !bytes.Equal(got, ref) {
 		w.Violate("mismatch", "C01:marshal-bytes:"+kind,
